@@ -84,4 +84,13 @@ theorem C15_source_skeletons :
     Gen.Skel.DB_Drop = Expected.Skel.DB_Drop :=
   rfl
 
+/-- further regenerated control skeletons (fifth round of seeded changes: code no earlier change had
+    touched): Store_openDatabases, Store_openDatabase, RootNode_createDatabase, RootNode_lookupDBNode -/
+theorem C15_source_skeletons_5 :
+    Gen.Skel.Store_openDatabases = Expected.Skel.Store_openDatabases ∧
+    Gen.Skel.Store_openDatabase = Expected.Skel.Store_openDatabase ∧
+    Gen.Skel.RootNode_createDatabase = Expected.Skel.RootNode_createDatabase ∧
+    Gen.Skel.RootNode_lookupDBNode = Expected.Skel.RootNode_lookupDBNode :=
+  ⟨rfl, rfl, rfl, rfl⟩
+
 end LiteFSVerif.C15
